@@ -103,6 +103,16 @@ def empty_synth():
     return vs
 
 
+def rejected_dev(tkey, devs):
+    """Which deviation of the list the API rejects (applied one at a time on a fresh module)."""
+    for d in devs:
+        try:
+            deviate.build(tkey, [d])
+        except Exception:
+            return d["k"] + ":" + str(d.get("n", d.get("p")))
+    return "+".join(d["k"] + ":" + str(d.get("n", d.get("p"))) for d in devs)
+
+
 def _task(t):
     tkey, seed, mode, lo, hi = t
     r = C.new_result()
@@ -110,13 +120,13 @@ def _task(t):
     if mode == 1:
         combos = ([[]] + [[d] for d in devs])[lo:hi]
     else:
-        combos = [list(pr) for pr in list(deviate.pairs(devs))[lo:hi]]
+        combos = [list(pr) for pr in list(deviate.pairs(devs, common_pairs=(tkey == 'Amplifier')))[lo:hi]]
     for c in combos:
         try:
             vs, dg = check_module(tkey, c)
         except Exception as e:
             vs, dg = [C.viol("deviation-rejected", {"type": tkey, "exc": type(e).__name__,
-                                                           "dev": [d["k"] + ":" + str(d.get("n", d.get("p"))) for d in c]},
+                                                           "rejected": rejected_dev(tkey, c)},
                              {"error": repr(e)}, {"type": tkey, "devs": c})], b""
         r["evals"] += 1
         r["digests"].add(dg)
@@ -139,7 +149,7 @@ def run(ctx):
     if ctx.thorough:
         for k in deviate.type_keys():
             devs = deviate.module_devs(k, ctx.seed, spikes="few", opt8="few")
-            n = sum(1 for _ in deviate.pairs(devs))
+            n = sum(1 for _ in deviate.pairs(devs, common_pairs=(k == 'Amplifier')))
             npairs += n
             step = 4000
             for lo in range(0, n, step):
